@@ -5,8 +5,8 @@ from pyvc.spec import new_spec
 def build_spec():
     spec = new_spec()
     from . import (classes, lib_std, relies, c_process, c_watcher, c_util, c_sync, c_arbiter,
-                   c_commands, c_stream, c_controller, c_options, c_signal, c_manage)
+                   c_commands, c_stream, c_controller, c_options, c_signal, c_manage, c_pidfile, c_shutdown)
     for m in (classes, lib_std, relies, c_process, c_watcher, c_util, c_sync, c_arbiter, c_commands,
-              c_stream, c_controller, c_options, c_signal, c_manage):
+              c_stream, c_controller, c_options, c_signal, c_manage, c_pidfile, c_shutdown):
         m.declare(spec)
     return spec
